@@ -59,7 +59,7 @@ func (r *repository) FindRule(ctx heimdall.Context) (rule.Rule, error) {
 	defer r.rulesTreeMutex.RUnlock()
 
 	entry, err := r.index.Find(
-		x.IfThenElse(len(request.URL.RawPath) != 0, request.URL.RawPath, request.URL.Path),
+		x.IfThenElse(len(request.URL.RawPath) != 0, normalizeUnreservedEscapes(request.URL.RawPath), request.URL.Path),
 		radixtree.LookupMatcherFunc[rule.Route](func(route rule.Route, keys, values []string) bool {
 			return route.Matches(ctx, keys, values)
 		}),
